@@ -459,7 +459,7 @@ pub fn run(ctx: &Ctx, rep: &mut Report) {
     let e32 = f32::EPSILON as f64;
     // (the tensor-based targets deliver f32-level accuracy on every backend: the statement's own
     // tolerance; burn's from_floats quantises their constants to f32)
-    for c in ctx.case_ids("gaussian2d", 600, 60_000) {
+    for c in ctx.case_ids("gaussian2d", 600, 600_000) {
         let mut g = ctx.rng("gaussian2d", c);
         if c % 2 == 0 {
             gaussian2d_case::<f64>(rep, c, &mut g);
@@ -467,7 +467,7 @@ pub fn run(ctx: &Ctx, rep: &mut Report) {
             gaussian2d_case::<f32>(rep, c, &mut g);
         }
     }
-    for c in ctx.case_ids("targets", 400, 40_000) {
+    for c in ctx.case_ids("targets", 400, 300_000) {
         let mut g = ctx.rng("targets", c);
         match c % 8 {
             0 => diffable_case::<f32, B32>(rep, c, &mut g, "f32", "NdArray<f32>", e32),
@@ -480,7 +480,7 @@ pub fn run(ctx: &Ctx, rep: &mut Report) {
             _ => rosen_case::<f32, B64>(rep, c, &mut g, "f32", "NdArray<f64>", e32),
         }
     }
-    for c in ctx.case_ids("isotropic", 1600, 160_000) {
+    for c in ctx.case_ids("isotropic", 1600, 1_000_000) {
         let mut g = ctx.rng("isotropic", c);
         if c % 2 == 0 {
             iso_case::<f64>(ctx, rep, c, &mut g);
